@@ -1,9 +1,11 @@
 import Driver.Util
 import Driver.MC4
+import Driver.Disp
 
 def main (args : List String) : IO UInt32 := do
   let stdin ← IO.getStdin
   let lines ← Driver.readLines stdin #[]
   match args with
   | ["mc4"] => Driver.MC4.run lines; return 0
+  | ["disp"] => Driver.Disp.run lines; return 0
   | _ => IO.eprintln "usage: pmdriver <mode>  (case file on stdin)"; return 2
